@@ -5,7 +5,7 @@ import json, re
 import pvlib
 from pvlib import Check, run_tlc, run_cases, payloads
 
-PRELUDE = 'B1 := [1].bear({}); R1 := (1:2).bear({}); M1 := %{1: 100, "a": 101, [1]: 102, "c": 103}; M2 := %{[1]: 200, 2: 201, {a: 1}: 202}; O1 := {a: 110, c: 111, a!: 112}; O2 := {b: 120, _p: 121, _q: 122}\n'
+PRELUDE = 'B1 := [1].bear({}); R1 := (1:2).bear({}); I5 := 5.bear; M1 := %{1: 100, "a": 101, [1]: 102, "c": 103}; M2 := %{[1]: 200, 2: 201, {a: 1}: 202}; O1 := {a: 110, c: 111, a!: 112}; O2 := {b: 120, _p: 121, _q: 122}\n'
 # the operands themselves must be what they were (what they print, contain and index), whatever literal was evaluated
 OPERANDS = "say([M1, M2, O1, O2, M1.S, M2.S, O1.S, O2.S, M1.keys, M2.keys, O1.keys, O2.keys, O1['b], O1['_p], O1['d], O2['a], O2['c], M1[2], M2[1], M1[{a: 1}]])"
 INSPECT = {"B1": "{}", "R1": "{}", "(1:2)": "(1:2:nil)", "1.0": "1.000000", "1.0000001": "1.000000", "1.0000002": "1.000000"}
@@ -58,7 +58,8 @@ def build(case):
     else:
         q = ["say(x.keys)", "say(x.values)", "say(x.items)", "say(x@{|k, v| [k, v]})", "say(x.len)",
              "say([" + ", ".join(f"x[{k['s']}]" for k in probes) + "])", "say(x)", "say(x.S)"]
-    return PRELUDE + "x := " + lit + "\n" + "\n".join(q) + "\nx2 := " + lit + "\nsay(x2)\n" + OPERANDS, lit
+    calls = "{|zq: 0| zq}(**O1, **O2); {zm: m{|zq: 0| zq}}.zm(**O2, **O1); {|zq: 0| zq}(**x, **O1) if x.proto == Obj\n"      # ** operands of calls stay what they were, too
+    return PRELUDE + "x := " + lit + "\n" + "\n".join(q) + "\nx2 := " + lit + "\nsay(x2)\n" + calls + OPERANDS, lit
 
 
 def expect(case):
@@ -96,6 +97,10 @@ def run():
     if len(kt) != len(srcs):
         raise pvlib.Broken("reference rendering of the key pool failed")
     KEYTEXT.update({x: e[4:] for x, e in zip(srcs, kt)})
+    ki = run_cases([{"id": "k", "src": PRELUDE + "\n".join(f"say(%{{{x}: 0}}.S)" for x in srcs)}], nproc=1)["k"]["events"]
+    for x, e in zip(srcs, ki):          # how each key prints inside a map
+        txt = json.loads(e[4:]) if e[4:].startswith('"') else e[4:]
+        INSPECT[x] = txt[2:-4]
     out = run_cases([{"id": r["id"], "src": r["src"]} for r in reqs] + [{"id": "ref", "src": PRELUDE + OPERANDS}], label="C09")
     ref_operands = out["ref"]["events"][-1][4:]
     names = {"obj": ["keys", "values", "items", "keys(private)", "values(private)", "items(private)", "iteration", "index", "call", "structure", "print"],
@@ -147,7 +152,7 @@ def run():
     ck.cov["traces_validated_against_impl"] = len(cases)
     ck.cov["exhaustive"] = True
     ck.cov["rule"] = ("object literals: every sequence of <= MaxPairs pairs over names {a, b, _p, a!, _p!} x ** operands {-, O1, O2, O1 O2, O2 O1}; map literals: every sequence "
-                      "of <= MaxPairs pairs over 17 keys (ints, strs, floats incl. two that print alike, a range, descendants of [1] and (1:2) that == accepts, nil, bools, arrays incl. [1] twice-equal, object) x ** operands {-, M1, O1, M1 O1, O2 M1}; "
+                      "of <= MaxPairs pairs over 19 keys (incl. a descendant of the int 5 next to 5) (ints, strs, floats incl. two that print alike, a range, descendants of [1] and (1:2) that == accepts, nil, bools, arrays incl. [1] twice-equal, object) x ** operands {-, M1, O1, M1 O1, O2 M1}; "
                       "MaxPairs 2 quick / 3 thorough; accessors keys/values/items(/private), iteration, len, index for every pool key, structure, printed pairs; "
                       "non-trivial = literals with at least one duplicate key")
     ck.assumptions = ["names that are also Map/Obj property names are not used as absent-key probes"]
